@@ -427,6 +427,26 @@ def r4(ctx, p, lf):
         ctx.ok("C17-R4", "%d (times.push, labels.push) pairs: each dominated/post-dominated by its mate inside the loop" % paired, lf.loc())
     else:
         ctx.fail("C17-R4", lf.path, "unpaired push", "a line can push to one of labels/times without the other (%d of %d paired)" % (paired, len(pushes["times"])), lf.loc())
+    # a line without time stamps pushes the *unknown* pair: both components strictly negative
+    # constants (-0.0 is not: `start >= 0` holds for it, and the label would count as starting at 0)
+    nconst = 0
+    for tb in pushes["times"]:
+        tt = lf.term(tb)
+        try:
+            v = eb.at(tb).op(tt["args"][1])
+        except Exception:  # noqa: BLE001
+            continue
+        if v[0] == "agg" and len(v[2]) == 2 and all(x[0] == "c" for x in v[2]):
+            nconst += 1
+            def strictly_negative(x):
+                try:
+                    return float(x[1]) < 0.0
+                except (TypeError, ValueError):
+                    return False
+            if all(strictly_negative(x) for x in v[2]):
+                ctx.ok("C17-R4", "a line without time stamps pushes the unknown pair (%s, %s), both negative" % (float(v[2][0][1]), float(v[2][1][1])), cm.loc_of(tt["span"]))
+            else:
+                ctx.fail("C17-R4", lf.path, "unknown time pair", "a line without time stamps pushes the time pair %s: a component that is not strictly negative counts as a known time (>= 0), so alignment would treat the label as stamped" % show(v)[:60], cm.loc_of(tt["span"]))
     # the push-free path to the latch is the blank-line path
     allp = set(pushes["labels"]) | set(pushes["times"])
     empties = []
